@@ -15,6 +15,16 @@ use crate::{
 pub use id::ContextID;
 
 pub type RunningFuture = futures::future::Shared<oneshot::Receiver<()>>;
+
+/// Whether the actor behind this future has terminated, without anybody having to await it.
+///
+/// `Shared::peek` only reports completion after some clone has been polled to completion
+/// and never on the clone that returned the output itself, so poll a fresh clone once.
+pub(crate) fn has_stopped(running: &RunningFuture) -> bool {
+    use futures::{FutureExt as _, future::FusedFuture as _};
+    running.is_terminated() || running.peek().is_some() || running.clone().now_or_never().is_some()
+}
+
 pub struct StopNotifier(pub(crate) oneshot::Sender<()>);
 impl StopNotifier {
     pub fn notify(self) {
